@@ -2002,6 +2002,55 @@ theorem gather_overwrite_counterexample :
       some (["Blue,Red"], 1) := by
   decide
 
+/-! ## Merging dictionaries: the first definition of a name wins -/
+
+theorem addEntry_keeps (acc : DefDict × List Issue) (e : Entry) (k : Str) (x : Entry)
+    (h : lookup acc.1 k = some x) : lookup (addEntry acc e).1 k = some x := by
+  unfold addEntry
+  split
+  · exact h
+  · unfold lookup at h ⊢
+    simp [List.find?_append, h]
+
+/-- **merge_duplicate_reported**: adding an entry whose key is present reports exactly one duplicate and leaves
+the dictionary as it was. -/
+theorem merge_duplicate_reported (acc : DefDict × List Issue) (e x : Entry) (h : lookup acc.1 e.key = some x) :
+    addEntry acc e = (acc.1, acc.2 ++ [Issue.duplicateDefinition]) := by
+  simp [addEntry, h]
+
+theorem mergeDict_keeps (d : DefDict) : ∀ (acc : DefDict × List Issue) (k : Str) (x : Entry),
+    lookup acc.1 k = some x → lookup (mergeDict acc d).1 k = some x := by
+  induction d with
+  | nil => intro acc k x h; exact h
+  | cons e d ih =>
+    intro acc k x h
+    simp only [mergeDict, List.foldl_cons]
+    exact ih (addEntry acc e) k x (addEntry_keeps acc e k x h)
+
+/-- **merge_first_wins**: once a name has an entry, merging any further dictionaries (through
+`DefinitionDict([…])`, `DefValidator([…])`, `add_definitions(dict)`) never changes it: lookups — hence expansion
+and the Def-expand check — keep using the first definition's content and takes-value flag. -/
+theorem merge_first_wins (ds : List DefDict) : ∀ (acc : DefDict × List Issue) (k : Str) (x : Entry),
+    lookup acc.1 k = some x → lookup (ds.foldl mergeDict acc).1 k = some x := by
+  induction ds with
+  | nil => intro acc k x h; exact h
+  | cons d ds ih =>
+    intro acc k x h
+    simp only [List.foldl_cons]
+    exact ih (mergeDict acc d) k x (mergeDict_keeps d acc k x h)
+
+/-- `A ↦ (Blue,Red)` merged with a dictionary redefining `A ↦ (L/#)` with a placeholder (and defining `B`):
+one duplicate, `A` unchanged, `B` added; `Def/A` still expands with the first content. -/
+theorem merge_example :
+    let d2 : DefDict := [⟨['A'], ['A'], [.tag { name := ['L'], ext := ['/', '#'] }], true⟩,
+                         ⟨['B'], ['B'], [.tag tRed], false⟩]
+    ((mergeDicts [ddA, d2]).1.map (fun e => (e.key, String.ofList (strL e.content), e.takes)),
+      (mergeDicts [ddA, d2]).2) =
+      ([(['A'], "Blue,Red", false), (['B'], "Red", false)], [Issue.duplicateDefinition]) ∧
+    ((runG id true true (mergeDicts [ddA, d2]).1 { kids := [.tag tDefA] } [.expand]).toOption.map
+        (fun o => String.ofList (strL o.kids))) = some "(Def-expand/A,(Blue,Red))" := by
+  decide
+
 /-! ## Non-vacuity -/
 
 example : Good ddA := by
